@@ -562,6 +562,19 @@ TAG_RE = re.compile(r'\[(C\d\d)\]')
 
 
 def build_and_check(unit, h, ctext, info, outdir, nocache=False, trace_prop=None, extra_defines=()):
+    """Serialises concurrent processes that work on the same harness files (two checks of different properties that share a unit, or a check and a
+    seeded-mutant run): the files <outdir>/<harness>.{c,gb,i.gb} are rewritten by every run, and a process must not read them while another writes."""
+    import fcntl
+    os.makedirs(outdir, exist_ok=True)
+    with open(os.path.join(outdir, h.name + ('.small' if extra_defines else '') + '.lock'), 'w') as lk:
+        fcntl.flock(lk, fcntl.LOCK_EX)
+        try:
+            return _build_and_check(unit, h, ctext, info, outdir, nocache, trace_prop, extra_defines)
+        finally:
+            fcntl.flock(lk, fcntl.LOCK_UN)
+
+
+def _build_and_check(unit, h, ctext, info, outdir, nocache=False, trace_prop=None, extra_defines=()):
     """Compile, instrument, solve one harness.  Returns a result dict."""
     os.makedirs(outdir, exist_ok=True)
     base = os.path.join(outdir, h.name + ('.small' if extra_defines else ''))
@@ -627,6 +640,7 @@ def build_and_check(unit, h, ctext, info, outdir, nocache=False, trace_prop=None
                 res.update(status='broken', reason='goto-instrument (pre-unwind) failed: ' + (se or so)[-2000:])
                 return res
             gi[-2] = base + '.u.gb'
+            res['cmds'][1] = ' '.join(gi)
             res['cmds'].insert(1, ' '.join(pu))
     if h.dfcc:
         rc, so, se, dt = run(gi, 900, mem_gb=h.mem_gb)
